@@ -27,7 +27,12 @@ Proof. unfold round8. lia. Qed.
 
 Lemma ebytes_bitmap ws :
   ebytes (HBitmap ws) = be_bytes 2 1 ++ be_bytes 2 (4 + 4 * N.of_nat (length ws)) ++ List.concat (map be32 ws) ++ zeros (pad8 (4 + 4 * length ws)).
-Proof. unfold ebytes. cbn [helem_raw flat_map helem_bitmap_tree wire layout enc_fields align8]. rewrite !app_nil_r, <- !app_assoc. reflexivity. Qed.
+Proof.
+  unfold ebytes. cbn [helem_raw flat_map helem_bitmap_tree wire layout enc_fields align8]. rewrite !app_nil_r.
+  assert (Hl : length (be_bytes 2 1 ++ be_bytes 2 (4 + 4 * N.of_nat (length ws)) ++ List.concat (map be32 ws)) = (4 + 4 * length ws)%nat).
+  { rewrite !app_length, !length_be_bytes. pose proof (blen_words ws) as H. unfold Proto.blen in H. lia. }
+  rewrite Hl, <- !app_assoc. reflexivity.
+Qed.
 Lemma ebytes_other ty body :
   ebytes (HOther ty body) = be_bytes 2 ty ++ be_bytes 2 (4 + N.of_nat (length body)) ++ body ++ zeros (pad8 (4 + length body)).
 Proof. unfold ebytes. cbn [helem_raw flat_map wire layout enc_fields align8]. rewrite !app_nil_r. reflexivity. Qed.
@@ -106,7 +111,11 @@ Proof.
   { induction l as [|x l IHl]; intros a; cbn [fold_right]; [lia|]. rewrite IHl. lia. }
   rewrite Hs. f_equal. destruct e as [ws|ty body].
   - rewrite ebytes_bitmap. cbn [helem_raw map helem_bitmap_tree glen lenrule_of layout fields_len lenround align8 sumN fold_right].
-    blens. unfold Proto.blen. nats. rewrite length_zeros. lia.
+    blens. rewrite pad8_N. pose proof (blen_words ws) as HW. unfold Proto.blen in *. nats.
+    pose proof (round8_ge (4 + 4 * N.of_nat (length ws))) as Hr.
+    replace (N.of_nat (4 + 4 * length ws)) with (4 + 4 * N.of_nat (length ws)) by lia.
+    replace (2 + (2 + (N.of_nat (length (List.concat (map be32 ws))) + 0)) + 0) with (4 + 4 * N.of_nat (length ws)) by lia.
+    rewrite HW. lia.
   - rewrite ebytes_other. cbn [helem_raw map glen lenrule_of layout fields_len lenround align8 sumN fold_right].
     blens. unfold Proto.blen. rewrite ?app_length, ?length_be_bytes, ?length_zeros. unfold be16. rewrite ?length_be_bytes. nats. lia.
 Qed.
